@@ -52,6 +52,7 @@ def run_chunk(exe, lines, env=None, pre=(), timeout=3000):
     """Feed lines; returns list of (line, result line or None, stderr if the process died on that line)."""
     res = []
     i = 0
+    ncrash = 0
     e = dict(ENV)
     if env:
         e.update(env)
@@ -71,6 +72,9 @@ def run_chunk(exe, lines, env=None, pre=(), timeout=3000):
         # the op at index i killed the process
         res.append((lines[i], None, "exit code %d\n%s" % (rc, err)))
         i += 1
+        ncrash += 1
+        if ncrash >= 4:
+            break                         # enough replays from this chunk; restarting after every abort is slow
     return res
 
 
@@ -462,7 +466,7 @@ def run(ctx):
     # K: observation engine
     t0 = time.time()
     corpus, plain = build_corpus(ctx, exe)
-    target = 30000 if quick else 220000
+    target = 30000 if quick else 400000
     lines = gen_ops(ctx, corpus, target)
     ctx.log("corpus %d files, %d op lines (%.1fs)" % (sum(len(v) for v in corpus.values()), len(lines), time.time() - t0))
     parts = vlib.chunks(lines, vlib.NCPU * 4)
@@ -479,7 +483,7 @@ def run(ctx):
     if not quick:
         vexe = build_harness(ctx, "dbg")
         if vexe is not None:
-            sample = [l.replace("run2 ", "run ", 1) for l in ctx.rng.sample(lines, min(len(lines), 1600)) if len(l) < 40000]
+            sample = [l.replace("run2 ", "run ", 1) for l in ctx.rng.sample(lines, min(len(lines), 8000)) if len(l) < 40000]
             vparts = vlib.chunks(sample, vlib.NCPU)
             pre = ["valgrind", "-q", "--error-exitcode=98", "--exit-on-first-error=yes", "--leak-check=full", "--errors-for-leak-kinds=definite",
                    "--track-origins=no", "--max-stackframe=4000000"]
